@@ -21,6 +21,9 @@ CHECKS = {
    text='The full statement is FALSE of the unchanged code and that is machine-checked: C04_bw_halt_refuted_F1, C04_bw_spin_refuted_F1, '
         'C04_bw_halt_refuted_F2, C04_stmt_refuted (witnesses by vm_compute on the faithful Gallina model of reason.rs, which is tied to the '
         'code on every run incl. Refuted step numbers and panics). Proved positively: depth monotonicity with the same step number (C04_bw_mono). '
+        'Proved LOCALLY (Proofs/BackstepSound.v, 72 lemmas): C04_backstep_exact (a plain backward step is a sound over-approximation), C04_indef_covers (indefinite sweeps), '
+        'C04_check_spinout_spec (exactly when the F1 branch fires), C04_plain_round_sound (one full round of the main loop covers the real predecessor outside the F1 branch), target '
+        'completeness; the induction over rounds and the blanks-skip argument are not done. '
         'Every refutation the implementation gives on the explored programs is tested against a real run (native pre-filter, confirmed by the '
         'extracted cell-by-cell spec); falsified refutations are attributed to the two recorded call sites by model counterfactuals '
         '(KNOWN-FINDING), anything else is a VIOLATION with the program/goal/depth as replay. Unguarded global soundness is not a theorem here.',
@@ -36,14 +39,16 @@ CHECKS = {
         'Falsified wrapper verdicts are attributed to F2 by the model counterfactual (true table size); anything else is a VIOLATION.',
    note=COMMON_NOTE + 'Known finding F2 open at the wrapper entry point. Observation (not a violation): seg_cant_blank can never answer refuted (incomplete, not unsound).',
    tech='Rocq/Coq refutation + monotonicity theorems; model/implementation correspondence; extracted-spec oracle exploration'),
- 'C06': dict(cat='other', sec='DESIGN.md §6 C06, §5 F2',
-   text='Interim: the Gallina model of cps.rs (processing order of the HashSet made an explicit parameter) is tied to the code on every run; the closed-set soundness proof '
-        '(true => never halts / never erases / never spins out, for every processing order, under the table-size guard dims_ok for the halt early exit) is in progress. '
-        'Machine-checked now: the F2 refutation C06_cps_true_refuted_F2. The property is decided on the explored programs: every `true` of the implementation is tested against a '
-        'real run (native pre-filter, confirmed by the extracted cell-by-cell spec); falsified answers are attributed to F2 when no closure pass of the model closes (the answer came '
-        'from the early exit halt_slots().is_empty()); anything else is a VIOLATION.',
-   note=COMMON_NOTE + 'Known finding F2 open. The boolean can depend on the hash order only through MAX_LOOPS/MAX_DEPTH (then the answer is false, which claims nothing).',
-   tech='Rocq/Coq refutation theorem (soundness proof in progress); model/implementation correspondence; extracted-spec oracle exploration'),
+ 'C06': dict(cat='proof', sec='DESIGN.md §6 C06, §5 F2, §12',
+   text='Coq theorems over the Gallina model of cps.rs, for EVERY processing order of the HashSet (order is a parameter of the model; order_ok = it is a permutation): '
+        'C06_cps_cant_halt_sound (under the table-size guard dims_ok, needed only for the early exit halt_slots().is_empty() = known finding F2, refuted outside the guard by '
+        'C06_cps_true_refuted_F2), C06_cps_cant_blank_sound, C06_cps_cant_spin_out_sound: a `true` answer implies the real machine started on the blank tape never halts / never '
+        'erases the tape / never spins out, for every radius. Proof: concretisation of configurations (local window in seen + every further-out window registered), local soundness '
+        'C06_covered_step, the sweep invariant C06_sweep_registers (every seen config is registered at every sweep boundary, so the final no-update sweep is a pure closure check '
+        'although the code has no flag for span growth), C06_closed_after_true, C06_cps_cant_reach_sound; C06_cps_mono for radii. Tie: real cps_cant_* vs extracted model; every '
+        '`true` of the implementation tested against a real run; falsified answers attributed to F2 iff no closure pass of the model closes.',
+   note=COMMON_NOTE + 'Theorems closed under the global context. Known finding F2 open (early exit). MAX_LOOPS/MAX_DEPTH/fuel can only produce false.',
+   tech='Rocq/Coq proof (closed-set invariant, for all processing orders) + model/implementation correspondence + extracted-spec oracle'),
  'C07': dict(cat='proof', sec='DESIGN.md §6 C07',
    text='Coq theorem C07_rec_sound over the Gallina model of quick_term_or_rec/aligns_with/compare_take: for every normal-form program and EVERY '
         'cycle limit, Recur implies the real machine never halts AND never spins out, Spinout implies it spins out, Undefined(slot) implies it halts exactly there. '
